@@ -228,7 +228,7 @@ def fam_corpus(ses, pt, rng, thorough, shard=0, nshards=1):
         for v in (G.VERSIONS if thorough else [2, 3, 4, 6, 8, 10]):
             for app in (True, False):
                 one(r, v, app, None, None, False, "small")
-    n = (5000 if thorough else 600) // nshards
+    n = (5000 if thorough else 500) // nshards
     for i in range(n):
         version, app, ss, fp = random_case_params(rng)
         g = Gen(rng, version, app, size=rng.choice([5, 10, 20, 40, 60]), allow_new_ops=0.03)
@@ -272,7 +272,7 @@ def fam_sweep(ses, pt, rng, thorough, shard=0, nshards=1):
 
 
 def fam_subs(ses, pt, rng, thorough, shard=0, nshards=1):
-    n = (6000 if thorough else 900) // nshards
+    n = (6000 if thorough else 750) // nshards
     hist = {}
     for i in range(n):
         seed = rng.randrange(1 << 40)
